@@ -1,6 +1,7 @@
 //! Library face of the harness (used by the binary and by the cargo-fuzz targets under /verif/fuzz).
 pub mod chooser;
 pub mod engine;
+pub mod fuzzbridge;
 pub mod gen;
 pub mod model;
 pub mod props;
